@@ -86,24 +86,24 @@ def program(kind, init, ops, infn, alias_after=0):
 
 
 def grew(init_len, ops, alias_after=0):
-    """model-side guard of D6: did the list grow past its capacity (max(4, literal length), doubling) after the aliases were taken? returns the first such step
-    (1-based, counted from the first operation after aliasing) or None"""
-    cap = max(4, init_len)
+    """model-side guard of D6, independent of the runtime's capacity policy: the first step (1-based, counted from the first operation after the
+    aliases were taken) at which the list becomes longer than it has ever been since the aliases were taken - any such step may re-allocate it. None if there is none"""
     n = init_len
+    high = None
     for k, (op, alias) in enumerate(ops):
         k = k - alias_after
+        if k == 0 and high is None:
+            high = n
+        if alias_after == 0 and high is None:
+            high = n
         add = {"push": 1, "insert": 1, "push2": 2}.get(op, 0)
         if op in ("remove", "pop") and n > 0:
             n -= 1
         elif op == "clear":
             n = 0
-        if add:
-            if n + add > cap:
-                if k >= 0:
-                    return k + 1
-                while n + add > cap:
-                    cap *= 2
-            n += add
+        n += add
+        if k >= 0 and add and n > high:
+            return k + 1
     return None
 
 
@@ -111,9 +111,11 @@ class C10(Check):
     id = "C10"
     level = "exploration"
     rule = ""
+    frozen = None   # the guard below is a semantic region (any growth after aliasing); recorded inputs would tie the finding to the runtime's capacity policy
+
     assumptions = ["reference evaluator: objects carry an immutable identity; maps are association lists with identity/IEEE key equality",
                    "the alias 'through another fiber' is realised as a value sent through and received from a channel",
-                   "capacity model for the D6 guard: max(4, length of the literal) (checked by the run itself: a mismatch before the modelled growth point is a violation)"]
+                   "D6 guard: the list became longer than at any time since the aliases were taken (any such step may re-allocate it); independent of the capacity policy"]
 
     def gen(self, tier):
         L_ = 3 if tier == "thorough" else 2
